@@ -347,7 +347,7 @@ func isFreshBase(fn *ssa.Function, base ssa.Value, at ssa.Instruction) bool {
 			if r == at {
 				continue
 			}
-			if canFollow(r, at) {
+			if canFollowAvoiding(r, at, al) {
 				return false
 			}
 		}
@@ -722,4 +722,28 @@ func (c *Ctx) checkGlobalRows(rule string, rows []globalRow) {
 			c.ok(rule, "row "+key+" -> "+prot, p.Pos(g.Pos()), fmt.Sprintf("%d access(es), all protected", n))
 		}
 	}
+}
+
+// canFollowAvoiding: can b execute after a on a path that does not execute the
+// allocation al again (a fresh object per loop iteration is published at the end
+// of one iteration and a *new* object is written in the next)?
+func canFollowAvoiding(a, b ssa.Instruction, al *ssa.Alloc) bool {
+	if a.Block() == b.Block() && instrIndex(a) < instrIndex(b) {
+		return true
+	}
+	ab := al.Block()
+	blocked := func(x *ssa.BasicBlock) bool { return x == ab }
+	for _, s := range a.Block().Succs {
+		if s == ab {
+			// re-entering the allocating block: b is after the allocation there unless it precedes it
+			if b.Block() == ab && instrIndex(b) < instrIndex(al) {
+				return true
+			}
+			continue
+		}
+		if psSearch(s, nil, blocked, func(x *ssa.BasicBlock) bool { return x == b.Block() }) != nil {
+			return true
+		}
+	}
+	return false
 }
